@@ -49,8 +49,10 @@ def run(tier: str, seed: int) -> CompResult:
     from xdist.remote import WorkerInteractor
     from xdist.scheduler import LoadFileScheduling, LoadGroupScheduling, LoadScopeScheduling
 
-    real = {"loadscope": LoadScopeScheduling._split_scope, "loadfile": LoadFileScheduling._split_scope,
-            "loadgroup": LoadGroupScheduling._split_scope}
+    # bound methods of real (uninitialised) scheduler objects: `_split_scope` may use `self` / `super()`
+    real = {"loadscope": LoadScopeScheduling.__new__(LoadScopeScheduling)._split_scope,
+            "loadfile": LoadFileScheduling.__new__(LoadFileScheduling)._split_scope,
+            "loadgroup": LoadGroupScheduling.__new__(LoadGroupScheduling)._split_scope}
     res = CompResult(component="pure.splitscope")
     res.rule = ("node ids rendered from structured descriptors (packages, nested classes, doctest-style names, parametrisation ids and group names over an "
                 "alphabet rich in : @ [ ]) plus raw adversarial strings; pairs of descriptors are compared for key soundness; distinct by (mode, id)")
@@ -66,7 +68,7 @@ def run(tier: str, seed: int) -> CompResult:
         else:
             nid = "".join(rng.choice("ab:@[]/. ") for _ in range(rng.randrange(0, 14)))
         lines.append(f"split {mode} {esc(nid)}")
-        impl.append(esc(real[mode](None, nid)))
+        impl.append(esc(real[mode](nid)))
         res.distinct.add(h((mode, nid)))
     # tagging by the worker (remote.py:236-252)
     for i in range(min(200, n // 5)):
@@ -90,7 +92,7 @@ def run(tier: str, seed: int) -> CompResult:
         a, b_ = rng.choice(descs), rng.choice(descs)
         if k < len(fixed):
             mode, a, b_ = fixed[k]
-        ka, kb = real[mode](None, render(a, mode == "loadgroup")), real[mode](None, render(b_, mode == "loadgroup"))
+        ka, kb = real[mode](render(a, mode == "loadgroup")), real[mode](render(b_, mode == "loadgroup"))
         same = group_of(mode, a) == group_of(mode, b_)
         if same == (ka == kb):
             continue
